@@ -53,6 +53,27 @@ CHECKS = {
          "get_SCD vs that lag form on every pattern <= 7/10 and random sequences to 300.",
          "Real.sqrt vs float sqrt: compared within 1e-9; the harness takes the square roots (math.sqrt, fsum).",
          "Lean 4 proof over R (Finset sum reindexing) + differential correspondence through exact integer lag sums"),
+ "C10": ("Lean theorems for every list and window: the code's flank arithmetic gives floor((w-1)/2) leading and floor(w/2) trailing zeros; a profile is "
+         "answered iff w <= N and then has exactly N values, entry i+floor((w-1)/2) is the statistic of the window starting at residue i, the flanks are 0; "
+         "for w = N the single window value equals the whole-sequence NCPR / FCR / sigma / Uversky hydropathy / group fraction; delta is the mean of the "
+         "mean squared deviations of the w=5,6 sigma windows; w > N is rejected; composition returns one row per group (7 by default). Correspondence: "
+         "every pattern <= 6/8 x every w in 1..N+3, random sequences, random user groups.",
+         "Defect found and repaired (fix: commit): get_linear_NCPR lacked the window guard.",
+         "Lean 4 proof (list index arithmetic, omega) + exhaustive-window correspondence"),
+ "C11": ("Lean theorems: K = floor((N-w)/s)+1 windows, each the slice [i*s, i*s+w); K positions, strictly increasing, within 1..N (for K<=N, which "
+         "always holds); each value depends only on its own window; LC in [0,1] (distinct words bounded by |A|^wordSize via an explicit word "
+         "enumeration, and by the number of positions); LZW in [0,1]; over the reals: the WF loop equals the Shannon entropy base |A| of the window "
+         "letter counts, is >= 0 and <= 1 (Jensen with Real.concaveOn_negMulLog), 0 for a homopolymeric window, permutation invariant. Correspondence: "
+         "3 types x 12 sizes x user alphabets x w x step x wordSize.",
+         "WF: the model outputs exact letter counts, the harness evaluates the entropy (math.log); float value 1.0000000000000002 for uniform windows is float rounding of a value proved <= 1 (tolerance 1e-9).",
+         "Lean 4 proof (Nat division arithmetic; counting argument; Jensen over R) + differential correspondence"),
+ "C12": ("Kernel-checked (decide) on the table REGENERATED from the live code for all sizes 0..25 x 20 residues: each of the 12 sizes has exactly k "
+         "documented groups partitioning the 20 residues, every residue maps to a member of its own documented group (the same for the whole group), "
+         "reducing twice changes nothing, the alphabet lists exactly the representatives once each; exactly the 12 documented sizes are accepted. "
+         "For all sequences: length preserved, reduce(s++t)=reduce s++reduce t, idempotent, entrywise. User alphabets: accepted iff every residue is "
+         "bound to a single upper-case amino-acid letter, then applied residue by residue. Correspondence incl. laws on real outputs.",
+         "Documented partitions typed by hand from the docstring (Spec/Partitions.lean).",
+         "Lean 4 decide +kernel over the regenerated 26x20 table + List.map laws + differential correspondence"),
  "C13": ("Lean theorems, for ANY str.upper / str.isspace functions: construction from a string succeeds iff the upper-cased string with white "
          "space deleted is a non-empty word over the 20 letters, and the object then holds exactly that word; non-strings, '', and strings that "
          "normalise to nothing are rejected; a normalised word is a fixed point. A tie module proves the hypotheses for Python's own upper/isspace "
